@@ -16,7 +16,7 @@ let api_of_name = function
 
 (* name + optional action list ("a1/a2/..."): the batch-reading operations *)
 let api_of_spec (name : string) (acts : string option) : api =
-  let zs = match acts with None -> [] | Some a -> List.map z_of_hex (String.split_on_char '/' a) in
+  let zs = match acts with None | Some "" -> [] | Some a -> List.map z_of_hex (String.split_on_char '/' a) in
   match name with
   | "fetchread" -> AFetchRead zs
   | "connread" -> AFetchRead zs
@@ -57,13 +57,18 @@ let pr_err = function
   | ENegCount -> "negcount" | EPanic -> "panic" | ENoProgress -> "noprogress"
   | EClosed -> "closed" | EUnmodelled -> "unmodelled"
 
+(* Conn.Read / Conn.ReadMessage return silentEOF(err): at the end of a (truncated) batch they give a
+   zero result with a nil error, where Batch.Read / ReadMessage give io.EOF *)
+let conn_style = ref ""
 let pr_reads (v : val0) : string =
   let cls c = match int_of_z c with 0 -> "ok" | 1 -> "shortbuf" | 2 -> "eof" | _ -> "?" in
   match v with
   | VL [VZ flag; VZ boff; VL outs] ->
     let act = function
       | VL [VZ kind; VZ n; VB k; VB b; VZ c] ->
-        if int_of_z kind = 0 then String.concat "," ["r"; hex_of_z n; hex_of_bytes b; cls c]
+        if int_of_z c = 2 && !conn_style = "connread" then "r,0,.,ok"
+        else if int_of_z c = 2 && !conn_style = "connreadmsg" then "m,0,.,.,ok"
+        else if int_of_z kind = 0 then String.concat "," ["r"; hex_of_z n; hex_of_bytes b; cls c]
         else if int_of_z c = 0 then String.concat "," ["m"; hex_of_z n; hex_of_bytes k; hex_of_bytes b; "ok"]
         else "m," ^ cls c
       | _ -> "?" in
@@ -94,7 +99,9 @@ let negotiate_ok api ver =
 
 let rec take k l = if k <= 0 then [] else match l with [] -> [] | x :: t -> x :: take (k - 1) t
 
+let names : string list ref = ref []
 let eval (a : string list) : string =
+  names := [];
   match a with
   | [topic; ops; frames; cut] ->
     let topic = bytes_of_hex topic in
@@ -103,6 +110,7 @@ let eval (a : string list) : string =
       | name :: ver :: off :: rest ->
         let a = api_of_spec name (match rest with [x] -> Some x | _ -> None) in
         let ver = if ver = "-" then "0" else ver in
+        names := !names @ [name];
         (a, int_of_n (n_of_hex ver), { op_api = a; op_ver = n_of_hex ver; op_off = z_of_hex off })
       | _ -> failwith "bad op") (split_on ',' ops) in
     let stream = if frames = "." then [] else List.concat_map bytes_of_hex (split_on ',' frames) in
@@ -114,7 +122,9 @@ let eval (a : string list) : string =
     let s = ref stream in
     let inflight = ref (z_of_int 0) in
     let spun = ref false in
+    let idx = ref (-1) in
     let toks = List.map (fun (api, ver, o) ->
+      incr idx; conn_style := (try List.nth !names !idx with _ -> "");
       if !spun then "spin~0" else
       (* conn_do_i threads Conn.inflight; with a balanced counter it is conn_do (theorem
          C11_inflight_zero_detector_enabled) and never spins *)
